@@ -28,7 +28,7 @@ def x_obligations(tier):
             o.append(Obl(f"C03-{fn}[shipped,{pre!r}+{n}+{suf!r}]", M, fn, env={"VF_CONF": "shipped", "VF_PRE": pre, "VF_N": str(n), "VF_SUF": suf}, timeout=170 if tier == "quick" else 600, path_timeout=200,
                          family="C03-shipped", bound=f"shipped configuration: Sid({pre!r}+c+{suf!r}), c one symbolic character"))
     # typed Sids obtained from a PATH whose template names the fields in another order than the Sid's (shipped node files, miniB sounds)
-    for conf, cfg, pre, n, suf in [("shipped", "local", "hamlet/s/sq010/sh0010/fx/v001/p/smok", 1, "/vdb"), ("miniB", "main", "m/c/r1/01/p/", 1, "")]:
+    for conf, cfg, pre, n, suf in [("shipped", "local", "hamlet/s/sq010/sh0010/fx/v001/p/smoke/vd", 1, ""), ("miniB", "main", "m/c/r1/01/p/", 1, "")]:
         o.append(Obl(f"C03-from-path[{conf},{pre!r}+{n}+{suf!r}]", "xhair.obl.c05", "roundtrip", env={"VF_CONF": conf, "VF_CONFIG": cfg, "VF_PRE": pre, "VF_N": str(n), "VF_SUF": suf},
                      timeout=170 if tier == "quick" else 600, path_timeout=300, family="C03-from-path",
                      bound=f"{conf}: Sid(path=Sid({pre!r}+c+{suf!r}).path()) has the same fields in the same order, the same keytype and parent"))
